@@ -60,6 +60,11 @@ def one_case(rng, tier):
         nodes.append({'id': 'fl', 'op': 'flatten', 'ups': [last]})
         last = 'fl'
     g = aprogs.AGen(rng)
+    if kind == 'partition' and rng.random() < 0.35:
+        # a second, independent partition node with a timeout fed by the same elements: its timers are its own
+        nodes.append({'id': 'tw2', 'op': 'partition', 'ups': ['n0'], 'n': rng.choice([2, 3, 4, 5]), 'timeout': rng.choice([0.5, 1.0, 2.0]),
+                      'key': rng.choice([None, None, 'mod2'])})
+        nodes.append({'id': 'sk2', 'op': 'sink', 'ups': ['tw2'], 'kind': rng.choice(['sync', 'coro']), 'svc': [0]})
     nodes.append({'id': 'sk', 'op': 'sink', 'ups': [last], 'kind': rng.choice(['sync', 'coro', 'coro', 'future', 'tornado', 'awaitable']), 'svc': g._svc()})
     prog = {'nodes': nodes, 'extra_edges': []}
     prods = []
